@@ -40,7 +40,7 @@ func NewGeneWithTrait(trait *neat.Trait, weight float64, inNode, outNode *networ
 // NewGeneCopy Construct a gene off of another gene as a duplicate
 func NewGeneCopy(g *Gene, trait *neat.Trait, inNode, outNode *network.NNode) *Gene {
 	return NewConnectionGene(network.NewLinkWithTrait(trait, g.Link.ConnectionWeight, inNode, outNode, g.Link.IsRecurrent),
-		g.InnovationNum, g.MutationNum, true)
+		g.InnovationNum, g.MutationNum, g.IsEnabled)
 }
 
 // NewConnectionGene is to create new connection gene with provided link
